@@ -1035,7 +1035,7 @@ func c17Cookie(c *Ctx, x *c17Ctx, isCookie func(ast.Expr) bool) {
 	// C17.7 insertion shape and index
 	for _, in := range insertions {
 		cons := "processHelloRetryRequest:cookie-insertion"
-		idx, okShape, why := c17InsertShape(info, in.Rhs)
+		idx, okShape, why := c17InsertShapeFn(fn, info, in.Rhs)
 		if !okShape {
 			if why == "" {
 				r.Unknown("C17.7", cons, c.Pos(in.Node), "store to uconn.Extensions is not a recognised single-element insertion: %s", an.Str(in.Rhs))
@@ -1115,6 +1115,12 @@ func c17Cookie(c *Ctx, x *c17Ctx, isCookie func(ast.Expr) bool) {
 // c17InsertShape recognises append(E[:i], append([]TLSExtension{&CookieExtension{…}}, E[i:]...)...)
 // and slices.Insert(E, i, &CookieExtension{…}) with E = UConn.Extensions.
 func c17InsertShape(info *types.Info, rhs ast.Expr) (idx ast.Expr, ok bool, why string) {
+	return c17InsertShapeFn(nil, info, rhs)
+}
+
+// c17InsertShapeFn: with fn given, a local holding the new element (v := &CookieExtension{…})
+// is read through to its definition.
+func c17InsertShapeFn(fn *an.Fn, info *types.Info, rhs ast.Expr) (idx ast.Expr, ok bool, why string) {
 	call, isCall := an.Unparen(rhs).(*ast.CallExpr)
 	if !isCall {
 		return nil, false, ""
@@ -1126,6 +1132,9 @@ func c17InsertShape(info *types.Info, rhs ast.Expr) (idx ast.Expr, ok bool, why 
 			if tv, ok := info.Types[cv.Fun]; ok && tv.IsType() {
 				e = cv.Args[0]
 			}
+		}
+		if fn != nil {
+			e = inlineLocal(fn, e)
 		}
 		u, ok := an.Unparen(e).(*ast.UnaryExpr)
 		if !ok || u.Op != token.AND {
